@@ -82,6 +82,13 @@ static unsigned char* expect_buf; static size_t expect_len, expect_cap;
 
 static void do_ops(char* ops, int in_cb);
 
+/* uv_replace_allocator: malloc fails while [fail_malloc] is set (only around a scripted uv_write/uv_write2) */
+static int fail_malloc, failed_mallocs;
+static void* h_malloc(size_t n) { if (fail_malloc) { failed_mallocs++; return NULL; } return malloc(n); }
+static void* h_realloc(void* p, size_t n) { return realloc(p, n); }
+static void* h_calloc(size_t a, size_t b) { return calloc(a, b); }
+static void h_free(void* p) { free(p); }
+
 static unsigned char pay(int id, size_t i) { return (unsigned char) (id * 131u + i * 7u + (i >> 8) + 1u); }
 
 static void drain_peer(void) {
@@ -348,6 +355,24 @@ static void do_ops(char* ops, int in_cb) {
       printf("r%d:%d ", w->id, r);
       free(bufs);
       break;
+    case 'N':                                  /* uv_write, the allocation of the buffer array fails */
+      w = make_req(tok + 1, &bufs, &nb);
+      printf("w%d,%zu ", w->id, w->total);
+      fail_malloc = 1;
+      r = uv_write(&w->req, &h.stream, bufs, nb, write_cb);
+      fail_malloc = 0;
+      printf("r%d:%d ", w->id, r);
+      free(bufs);
+      break;
+    case 'M':                                  /* uv_write2 with the send handle, ditto */
+      w = make_req(tok + 1, &bufs, &nb);
+      printf("w%d,%zu m%d ", w->id, w->total, w->id);
+      fail_malloc = 1;
+      r = uv_write2(&w->req, &h.stream, bufs, nb, (uv_stream_t*) &sendh, write_cb);
+      fail_malloc = 0;
+      printf("r%d:%d ", w->id, r);
+      free(bufs);
+      break;
     case 'V':
       w = make_req(tok + 1, &bufs, &nb);
       printf("w%d,%zu m%d ", w->id, w->total, w->id);
@@ -525,6 +550,7 @@ static void on_alarm(int sig) {
 int main(int argc, char** argv) {
   char* line = NULL; size_t cap = 0;
   tcp_mode = argc > 1 && strcmp(argv[1], "tcp") == 0;
+  uv_replace_allocator(h_malloc, h_realloc, h_calloc, h_free);
   signal(SIGPIPE, SIG_IGN);
   signal(SIGALRM, on_alarm);
   while (getline(&line, &cap, stdin) > 0) {
